@@ -153,7 +153,10 @@ def judge_bounded(meta, cfg, o, ref, must):
         return "stopped", "u-unclean"
     if sk[0] == "jobs" and not o["completion"].startswith("Value"):
         return "stopped", "u-unclean"
-    if o["lines"] != ([] if sk[0] == "eval" else meta["sync_lines"]):
+    # A clean stop: everything printed before the stop is what the unlimited run prints first, nothing after it.
+    # (A program that stays under the loop limit can still hit a tight stack/recursion limit midway; the lines
+    # it printed before that point are not an observation of the error.)
+    if o["lines"] != ref["lines"][:len(o["lines"])]:
         return "stopped", "u-unclean"
     return "stopped", None
 
